@@ -2794,6 +2794,11 @@ static void struct_members(Token **rest, Token *tok, Type *ty) {
     }
   }
 
+  // Only the last member may be an array of incomplete type.
+  for (Member *mem = head.next; mem && mem != cur; mem = mem->next)
+    if (mem->ty->kind == TY_ARRAY && mem->ty->array_len < 0)
+      error_tok(mem->name ? mem->name : tok, "flexible array member not at end of struct");
+
   // If the last element is an array of incomplete type, it's
   // called a "flexible array member". It should behave as if
   // if were a zero-sized array.
